@@ -11,6 +11,7 @@ import (
 	"github.com/apmckinlay/gsuneido/core"
 	"pgregory.net/rapid"
 	"verifharness/internal/ev"
+	"verifharness/internal/kf"
 	"verifharness/internal/rt"
 )
 
@@ -76,7 +77,7 @@ func TestC22(t *testing.T) {
 				continue
 			}
 			if err != nil {
-				if c.knownCrash(rec, "C22", err) {
+				if c.knownCrash(rec, "C22", err, "") {
 					return
 				}
 				t.Fatalf("engine failed to set up: %v\nplan: %v\n%s\n%s", err, p, c.describe(), err.stack)
@@ -90,13 +91,20 @@ func TestC22(t *testing.T) {
 				err := catch(func() { got = x.readAll(dir) })
 				if err != nil {
 					x.close()
-					if c.knownCrash(rec, "C22", err) {
+					if c.knownCrash(rec, "C22", err, x.strat) {
 						return
 					}
 					t.Fatalf("engine failed reading %c: %v\nplan: %v\nstrategy: %s\n%s\n%s", dir, err, p, x.strat, c.describe(), err.stack)
 				}
 				if !sameStrings(canonRows(x.cols, got), want) {
 					x.close()
+					if disjointMergeUnderSeq(x.strat) {
+						if e, ok := kf.Known("C22", "union-disjoint-merge-order"); ok {
+							rec.Excluded("union-disjoint-merge-order")
+							rec.Known(e.What)
+							return
+						}
+					}
 					t.Fatalf("%s", c.mismatch(fmt.Sprintf("C22: rows read with %c differ from the relational meaning of the query as written", dir), x, got))
 				}
 			}
